@@ -469,6 +469,43 @@ func run(c *vf.Ctx, si int) {
 	if !ledger(c, w, nut, scen, "named sender", owners) {
 		return
 	}
+	// --- a fee-delegated call that fails at run time must still consume the sender's nonce -----------
+	if tv >= 2 {
+		dep := w.Accts[10]
+		if pl, err := rig.DeployPayload(rig.LuaBank, nil, int32(tv)); err == nil {
+			dtx := rig.TxSpec{Type: types.TxType_DEPLOY, From: dep, Nonce: stateNonce(dep) + 1, Amount: new(big.Int).Mul(big.NewInt(100), rig.Aergo), Payload: pl, GasPrice: gp, ChainID: cid()}.Build()
+			if rsp := produce("deploy for fee delegation", dtx); rsp != nil && len(rsp.Included) == 1 && rsp.Receipts[0].Status == "CREATED" {
+				caddr := rig.ContractID(dep.Addr, dtx.Body.Nonce)
+				for _, fn := range []string{"fdfail", "fd"} {
+					ftx := rig.TxSpec{Type: types.TxType_FEEDELEGATION, From: a0, To: caddr, Nonce: stateNonce(a0) + 1, Amount: big.NewInt(0),
+						Payload: []byte(fmt.Sprintf(`{"Name":%q,"Args":["k"]}`, fn)), GasPrice: gp, ChainID: cid()}.Build()
+					rsp := produce("fee-delegated "+fn, ftx)
+					if rsp == nil {
+						return
+					}
+					if len(rsp.Included) != 1 {
+						c.Count("feedelegation/"+fn+"/not-included", 1)
+						continue
+					}
+					c.Count("feedelegation/"+fn+"/"+rsp.Receipts[0].Status, 1)
+					c.Eval(1)
+					// the identical tx again: pool and chain must refuse it
+					if res, _ := nut.MempoolPut(rig.EncTx(ftx)); res == "" {
+						c.Violation("pool-admitted-replay-of-included-tx/fee-delegated-"+rsp.Receipts[0].Status, fmt.Sprintf("%s: fee-delegated call %s (receipt %s) was admitted to the pool again after it had been executed", scen, fn, rsp.Receipts[0].Status), caseDesc{scen, "feedelegation/" + fn, nil})
+						return
+					}
+					if out := produceOn(c, w, nut, scen, "feedelegation-replay/"+fn, ftx); out == "accepted" {
+						c.Violation("tx-executed-twice/fee-delegated-"+rsp.Receipts[0].Status, fmt.Sprintf("%s: a block replaying the executed fee-delegated call %s (receipt %s) was accepted", scen, fn, rsp.Receipts[0].Status), caseDesc{scen, "feedelegation/" + fn, nil})
+						return
+					}
+					c.Nontrivial(scen + "|feedelegation|" + fn)
+				}
+				if !ledger(c, w, nut, scen, "fee delegation", owners) {
+					return
+				}
+			}
+		}
+	}
 	// --- blocks from a malicious producer ---------------------------------------------------------
 	bb, _ := nut.Best()
 	nvar := len(variants(w, mkValidAt(w, nut, a0, a1, stateNonce(a0)+1, 4242), a0, a1, mkValidAt(w, nut, a0, a1, stateNonce(a0)+2, 9), bb.No+1))
